@@ -7,6 +7,7 @@ environment (path, XML strings), every state, every call with every argument; th
 theorems are by induction over arbitrary call sequences.
 -/
 import CamVerif.Proofs.C19
+import CamVerif.Model.GenTLThreads
 namespace CamVerif.C19
 open CamVerif CamVerif.GenTL
 
@@ -1323,5 +1324,637 @@ example : ([(1028, 4, [0, 0, 0, 0]), (0, 1, [7])] : List (Nat × Nat × Bytes)).
     ([(1028, 4, [0, 0, 0, 0]), (0, 1, [7])] : List (Nat × Nat × Bytes)).all
       (fun e => decide (e.2.2.length = e.2.1)) = true ∧
     storedAll [1, 2, 3] [(0, 1, [9]), (2, 1, [8])] = [9, 2, 8] := by decide
+
+/-! ## 12. The stacked variants ARE the sequence of the single calls -/
+
+/-- the single call that corresponds to one stacked write entry `(address, size, data)` -/
+def singleWrite (h : Nat) (e : Nat × Nat × Bytes) : Call := .gcWritePort h e.1 e.2.1 e.2.2
+
+/-- the single call that corresponds to one stacked read entry `(address, size, buffer)` -/
+def singleRead (h : Nat) (e : Nat × Nat × Bytes) : Call := .gcReadPort h e.1 e.2.1 e.2.2
+
+/-- Reference semantics of `GCWritePortStacked`, written with the SINGLE entry point only: call
+`GCWritePort` for the entries in order (`n` = entries completed so far); the first call that
+returns an error code ends the sequence — its code is the result, `*piNumEntries = n`, the state
+is the one that call left (stored last error included) and no later entry is looked at; if all
+succeed the result is success with `*piNumEntries` = the number of entries.  An abort of a single
+call is an abort. -/
+def writeSingles (env : Env) (h : Nat) : State → List (Nat × Nat × Bytes) → Nat → StepRes
+  | s, [], n => .done s ⟨0, .writeStacked n⟩
+  | s, e :: es, n =>
+    match step env s (singleWrite h e) with
+    | .done s' r =>
+      if r.code = 0 then writeSingles env h s' es (n + 1) else .done s' ⟨r.code, .writeStacked n⟩
+    | .abort => .abort
+
+/-- Reference semantics of `GCReadPortStacked` written with `GCReadPort` only: `acc` = the buffers
+of the completed entries as the single calls left them; the first failing call ends the sequence
+with its code, `*piNumEntries = n`, its own buffer and all later buffers as the caller passed them. -/
+def readSingles (env : Env) (h : Nat) : State → List (Nat × Nat × Bytes) → Nat → List Bytes → StepRes
+  | s, [], n, acc => .done s ⟨0, .readStacked n acc⟩
+  | s, e :: es, n, acc =>
+    match step env s (singleRead h e) with
+    | .done s' ⟨code, .read _ buf⟩ =>
+      if code = 0 then readSingles env h s' es (n + 1) (acc ++ [buf])
+      else .done s' ⟨code, .readStacked n (acc ++ (e :: es).map (·.2.2))⟩
+    | _ => .abort
+
+private def wsFinish : State × Nat × GR Unit → StepRes
+  | (s', n, .ok ()) => .done s' ⟨0, .writeStacked n⟩
+  | (s', n, .err e) => .done { s' with lastErr := some e } ⟨e.code, .writeStacked n⟩
+  | (_, _, .panic) => .abort
+
+private theorem writeStacked_singles (env : Env) (h : Nat) (m : Module) (es : List (Nat × Nat × Bytes)) :
+    ∀ (s : State) (n : Nat), s.libInit = true → portOf (s.slots h) = .ok m →
+      es.any (fun e => decide (e.2.1 > ISIZE_MAX)) = false →
+      wsFinish (writeStacked env m s es n) = writeSingles env h s es n := by
+  induction es with
+  | nil => intro s n _ _ _; simp [writeStacked, wsFinish, writeSingles]
+  | cons x es ih =>
+    intro s n hi hp hsz
+    obtain ⟨a, size, data⟩ := x
+    simp only [List.any_cons, Bool.or_eq_false_iff, decide_eq_false_iff_not] at hsz
+    have hfree : s.slots h ≠ .freed := by
+      intro hf; rw [hf] at hp; simp [portOf] at hp
+    rcases hpw : portWriteSized env s m a size data with ⟨s1, r⟩
+    have hctl := portWriteSized_eq_ctl hpw
+    cases r with
+    | ok k =>
+      have h1 : step env s (singleWrite h (a, size, data)) = .done s1 ⟨0, .write k⟩ := by
+        simp [singleWrite, step, Call.noAssert, usesFreed, Call.handle?, hfree, hi, body, hsz.1, hp,
+          hpw, finish]
+      have := ih s1 (n + 1) (by rw [hctl.1]; exact hi) (by rw [hctl.2.2.2.2]; exact hp) hsz.2
+      simp [writeStacked, hpw, writeSingles, h1, this]
+    | err e =>
+      have hne : e.code ≠ 0 := by have := Err.code_neg e; omega
+      have h1 : step env s (singleWrite h (a, size, data)) =
+          .done { s1 with lastErr := some e } ⟨e.code, .write size⟩ := by
+        simp [singleWrite, step, Call.noAssert, Call.noSave, usesFreed, Call.handle?, hfree, hi, body, hsz.1, hp,
+          hpw, finish, Call.untouched]
+      simp [writeStacked, hpw, writeSingles, h1, hne, wsFinish]
+    | panic =>
+      have h1 : step env s (singleWrite h (a, size, data)) = .abort := by
+        simp [singleWrite, step, Call.noAssert, usesFreed, Call.handle?, hfree, hi, body, hsz.1, hp,
+          hpw, finish]
+      simp [writeStacked, hpw, writeSingles, h1, wsFinish]
+
+/-- **GCWritePortStacked = the sequence of GCWritePort calls up to and including the first
+failure** — for EVERY entry list (honest or not: if a single call would run out of the caller's
+buffer and abort, so does the stacked call at the same entry), every state, every live port
+handle: return code, `*piNumEntries`, both register maps, both event queues and the stored last
+error after the stacked call are exactly those after the single calls.  In particular entries
+before the first failing one have taken effect exactly as single writes, the failing entry has
+the effect the single write has (none, if it was refused; stored, if the triggered action failed)
+and later entries have none.  (No entry has a size above isize::MAX — such a list is refused as a
+whole before the first entry is processed: impossible_size_refused_stacked.) -/
+theorem write_stacked_is_sequence_of_singles (env : Env) (s : State) (h : Nat)
+    (es : List (Nat × Nat × Bytes)) (m : Module)
+    (hi : s.libInit = true) (hp : portOf (s.slots h) = .ok m)
+    (hsz : es.any (fun e => decide (e.2.1 > ISIZE_MAX)) = false) :
+    step env s (.gcWritePortStacked h es) = writeSingles env h s es 0 := by
+  have hfree : s.slots h ≠ .freed := by
+    intro hf; rw [hf] at hp; simp [portOf] at hp
+  rw [← writeStacked_singles env h m es s 0 hi hp hsz]
+  rcases hw : writeStacked env m s es 0 with ⟨s', n, r⟩
+  cases r <;>
+    simp [step, Call.noAssert, Call.noSave, usesFreed, Call.handle?, hfree, hi, body, hsz, hp, hw, finish, wsFinish]
+
+private def rsFinish (s : State) : Nat × List Bytes × GR Unit → StepRes
+  | (n, bufs, .ok ()) => .done s ⟨0, .readStacked n bufs⟩
+  | (n, bufs, .err e) => .done { s with lastErr := some e } ⟨e.code, .readStacked n bufs⟩
+  | (_, _, .panic) => .abort
+
+private theorem readStacked_singles (env : Env) (h : Nat) (m : Module) (s : State)
+    (hi : s.libInit = true) (hp : portOf (s.slots h) = .ok m) (es : List (Nat × Nat × Bytes)) :
+    ∀ (n : Nat) (acc : List Bytes), es.any (fun e => decide (e.2.1 > ISIZE_MAX)) = false →
+      rsFinish s (readStacked env s m es n acc) = readSingles env h s es n acc := by
+  have hfree : s.slots h ≠ .freed := by
+    intro hf; rw [hf] at hp; simp [portOf] at hp
+  induction es with
+  | nil => intro n acc _; simp [readStacked, rsFinish, readSingles]
+  | cons x es ih =>
+    intro n acc hsz
+    obtain ⟨a, size, buf⟩ := x
+    simp only [List.any_cons, Bool.or_eq_false_iff, decide_eq_false_iff_not] at hsz
+    cases hpr : portRead env s m a size with
+    | ok data =>
+      by_cases hb : size ≤ buf.length
+      · have h1 : step env s (singleRead h (a, size, buf)) =
+            .done s ⟨0, .read data.length (data ++ buf.drop data.length)⟩ := by
+          simp [singleRead, step, Call.noAssert, usesFreed, Call.handle?, hfree, hi, body, hsz.1, hp, hpr, hb, finish]
+        simp [readStacked, hpr, hb, readSingles, h1, ih _ _ hsz.2]
+      · have h1 : step env s (singleRead h (a, size, buf)) = .abort := by
+          simp [singleRead, step, Call.noAssert, usesFreed, Call.handle?, hfree, hi, body, hsz.1, hp, hpr, hb, finish]
+        simp [readStacked, hpr, hb, readSingles, h1, rsFinish]
+    | err e =>
+      have hne : e.code ≠ 0 := by have := Err.code_neg e; omega
+      have h1 : step env s (singleRead h (a, size, buf)) =
+          .done { s with lastErr := some e } ⟨e.code, .read size buf⟩ := by
+        simp [singleRead, step, Call.noAssert, Call.noSave, usesFreed, Call.handle?, hfree, hi, body, hsz.1, hp,
+          hpr, finish, Call.untouched]
+      simp [readStacked, hpr, readSingles, h1, hne, rsFinish]
+    | panic =>
+      have h1 : step env s (singleRead h (a, size, buf)) = .abort := by
+        simp [singleRead, step, Call.noAssert, usesFreed, Call.handle?, hfree, hi, body, hsz.1, hp, hpr, finish]
+      simp [readStacked, hpr, readSingles, h1, rsFinish]
+
+/-- **GCReadPortStacked = the sequence of GCReadPort calls up to and including the first
+failure**, for every entry list (honest or not), state and live port handle: return code,
+`*piNumEntries`, every entry buffer, the state and the stored last error are exactly those the
+single calls produce; the failing entry's buffer and all later buffers are as the caller passed
+them. -/
+theorem read_stacked_is_sequence_of_singles (env : Env) (s : State) (h : Nat)
+    (es : List (Nat × Nat × Bytes)) (m : Module)
+    (hi : s.libInit = true) (hp : portOf (s.slots h) = .ok m)
+    (hsz : es.any (fun e => decide (e.2.1 > ISIZE_MAX)) = false) :
+    step env s (.gcReadPortStacked h es) = readSingles env h s es 0 [] := by
+  have hfree : s.slots h ≠ .freed := by
+    intro hf; rw [hf] at hp; simp [portOf] at hp
+  rw [← readStacked_singles env h m s hi hp es 0 [] hsz]
+  rcases hw : readStacked env s m es 0 [] with ⟨n, bufs, r⟩
+  cases r <;>
+    simp [step, Call.noAssert, Call.noSave, usesFreed, Call.handle?, hfree, hi, body, hsz, hp, hw, finish, rsFinish]
+
+/-- The reference semantics unfolded into the vocabulary of `run`: if the sequence of single
+writes ends with result `(code, *piNumEntries = k)` in state `s'`, then the first `k` single calls
+— run one after the other from `s` — all returned success and led to a state `s1`; if `code = 0`
+these are all entries and `s' = s1`; otherwise entry `k` exists, and the single write of entry `k`
+in `s1` returned `code` and left exactly `s'`.  No later entry appears anywhere. -/
+theorem writeSingles_unfold (env : Env) (h : Nat) (es : List (Nat × Nat × Bytes)) :
+    ∀ (s : State) (n : Nat) (s' : State) (code : Int) (k : Nat),
+      writeSingles env h s es n = .done s' ⟨code, .writeStacked k⟩ →
+      ∃ j s1 rs, k = n + j ∧ j ≤ es.length ∧
+        run env s ((es.take j).map (singleWrite h)) = (rs, some s1) ∧ (∀ r ∈ rs, r.code = 0) ∧
+        ((code = 0 ∧ j = es.length ∧ s' = s1) ∨
+         (code ≠ 0 ∧ ∃ e out, es[j]? = some e ∧ step env s1 (singleWrite h e) = .done s' ⟨code, out⟩)) := by
+  induction es with
+  | nil =>
+    intro s n s' code k hw
+    simp only [writeSingles, StepRes.done.injEq, Result.mk.injEq, Out.writeStacked.injEq] at hw
+    obtain ⟨rfl, rfl, rfl⟩ := hw
+    exact ⟨0, s, [], rfl, Nat.le_refl _, rfl, by simp, Or.inl ⟨rfl, rfl, rfl⟩⟩
+  | cons x es ih =>
+    intro s n s' code k hw
+    unfold writeSingles at hw
+    split at hw
+    · rename_i s2 r hstep
+      split at hw
+      · rename_i h0
+        obtain ⟨j, s1, rs, hk, hj, hrun, hall, hres⟩ := ih s2 (n + 1) s' code k hw
+        refine ⟨j + 1, s1, r :: rs, by omega, by simp; omega, ?_, ?_, ?_⟩
+        · simp only [List.take_succ_cons, List.map_cons, run, hstep, hrun]
+        · intro r' hr'
+          simp only [List.mem_cons] at hr'
+          rcases hr' with rfl | hr'
+          · exact h0
+          · exact hall r' hr'
+        · rcases hres with ⟨a, b, c⟩ | ⟨a, e, out, he, hs⟩
+          · exact Or.inl ⟨a, by simp [b], c⟩
+          · exact Or.inr ⟨a, e, out, by simpa using he, hs⟩
+      · rename_i h0
+        simp only [StepRes.done.injEq, Result.mk.injEq, Out.writeStacked.injEq] at hw
+        obtain ⟨rfl, rfl, rfl⟩ := hw
+        exact ⟨0, s, [], rfl, Nat.zero_le _, rfl, by simp, Or.inr ⟨h0, x, r.out, by simp, by simpa using hstep⟩⟩
+    · cases hw
+
+private theorem portWriteSized_rejected {env : Env} {s s1 : State} {m : Module} {a size : Nat} {data : Bytes}
+    {e : Err} (hwf : WF env s) (hpw : portWriteSized env s m a size data = (s1, .err e))
+    (h1 : e ≠ .invalidIndex) (h2 : e ≠ .notImplemented) : s1 = s := by
+  unfold portWriteSized at hpw
+  split at hpw
+  · rcases port_write_exact_or_error env s m a data hwf with ⟨e', hp, _⟩ | ⟨s2, r, hp, _, _, _, hr⟩
+    · rw [hp] at hpw; cases hpw; rfl
+    · rw [hp] at hpw
+      cases hpw
+      rcases hr with hr | hr | ⟨hr, _⟩
+      · cases hr
+      · cases hr; exact absurd rfl h1
+      · cases hr; exact absurd rfl h2
+  · simp only [Prod.mk.injEq] at hpw; exact hpw.1.symm
+
+/-- **A rejected port write changes nothing.**  Whatever the handle, address, size and data (honest
+or not), in every well-formed state: if `GCWritePort` returns an error other than the two
+"stored, then the triggered action failed" codes INVALID_INDEX (-1017) / NOT_IMPLEMENTED (-1003) —
+in particular ACCESS_DENIED (-1005, e.g. a range that starts in a writable and ends in a read-only
+register) and INVALID_ADDRESS (-1015) — then the state afterwards is the state before, byte for
+byte: both register maps, both event queues (no observer fired), flags and handles; only the
+stored last error is new, and it is the returned error.  `*piSize` is untouched. -/
+theorem rejected_port_write_changes_nothing (env : Env) (s s' : State) (h address size : Nat) (data : Bytes)
+    (r : Result) (hwf : WF env s) (hstep : step env s (.gcWritePort h address size data) = .done s' r)
+    (h0 : r.code ≠ 0) (h1 : r.code ≠ -1017) (h2 : r.code ≠ -1003) :
+    ∃ e, e.code = r.code ∧ s' = { s with lastErr := some e } ∧ r.out = .write size := by
+  by_cases hi : s.libInit = true
+  · by_cases hfree : s.slots h = .freed
+    · simp [step, Call.noAssert, usesFreed, Call.handle?, hfree, hi] at hstep
+      rw [← hstep.2] at h0; simp at h0
+    · by_cases hsz : size > ISIZE_MAX
+      · simp [step, Call.noAssert, Call.noSave, usesFreed, Call.handle?, hfree, hi, body, hsz, finish,
+          Call.untouched] at hstep
+        exact ⟨.invalidParameter, by rw [← hstep.2], by rw [← hstep.1] <;> (cases s; simp at hi; simp [hi]), by rw [← hstep.2]⟩
+      · cases hp : portOf (s.slots h) with
+        | ok m =>
+          rcases hpw : portWriteSized env s m address size data with ⟨s1, r1⟩
+          cases r1 with
+          | ok k =>
+            simp [step, Call.noAssert, usesFreed, Call.handle?, hfree, hi, body, hsz, hp, hpw, finish] at hstep
+            rw [← hstep.2] at h0; simp at h0
+          | err e =>
+            simp [step, Call.noAssert, Call.noSave, usesFreed, Call.handle?, hfree, hi, body, hsz, hp, hpw, finish,
+              Call.untouched] at hstep
+            have hs1 : s1 = s := portWriteSized_rejected hwf hpw
+              (by rintro rfl; rw [← hstep.2] at h1; simp [Err.code] at h1)
+              (by rintro rfl; rw [← hstep.2] at h2; simp [Err.code] at h2)
+            subst hs1
+            exact ⟨e, by rw [← hstep.2], by rw [← hstep.1] <;> (cases s; simp at hi; simp [hi]), by rw [← hstep.2]⟩
+          | panic =>
+            simp [step, Call.noAssert, usesFreed, Call.handle?, hfree, hi, body, hsz, hp, hpw, finish] at hstep
+        | err e =>
+          simp [step, Call.noAssert, Call.noSave, usesFreed, Call.handle?, hfree, hi, body, hsz, hp, finish,
+            Call.untouched] at hstep
+          exact ⟨e, by rw [← hstep.2], by rw [← hstep.1] <;> (cases s; simp at hi; simp [hi]), by rw [← hstep.2]⟩
+        | panic =>
+          cases hsl : s.slots h <;> simp [hsl, portOf] at hp
+  · simp [step, Call.noAssert, Call.noSave, hi, finish, Call.untouched] at hstep
+    exact ⟨.notInitialized, by rw [← hstep.2], by rw [← hstep.1] <;> (cases s; simp at hi; simp [hi]), by rw [← hstep.2]⟩
+
+/-- **A rejected stacked write entry changes nothing, and neither do the entries after it.**  If
+`GCWritePortStacked` returns an error other than INVALID_INDEX / NOT_IMPLEMENTED (so: ACCESS_DENIED,
+INVALID_ADDRESS, NOT_INITIALIZED of a closed interface) with `*piNumEntries = k`, then the state
+afterwards is — byte for byte, maps, queues, flags — the state `s1` that the single writes of the
+first `k` entries (all successful) produce from `s`; only the stored last error is new. -/
+theorem rejected_stacked_write_changes_nothing (env : Env) (s s' : State) (h : Nat)
+    (es : List (Nat × Nat × Bytes)) (m : Module) (code : Int) (k : Nat)
+    (hwf : WF env s) (hi : s.libInit = true) (hp : portOf (s.slots h) = .ok m)
+    (hsz : es.any (fun e => decide (e.2.1 > ISIZE_MAX)) = false)
+    (hstep : step env s (.gcWritePortStacked h es) = .done s' ⟨code, .writeStacked k⟩)
+    (h0 : code ≠ 0) (h1 : code ≠ -1017) (h2 : code ≠ -1003) :
+    k < es.length ∧ ∃ s1 rs e, run env s ((es.take k).map (singleWrite h)) = (rs, some s1) ∧
+      (∀ r ∈ rs, r.code = 0) ∧ e.code = code ∧ s' = { s1 with lastErr := some e } := by
+  rw [write_stacked_is_sequence_of_singles env s h es m hi hp hsz] at hstep
+  obtain ⟨j, s1, rs, hk, hj, hrun, hall, hres⟩ := writeSingles_unfold env h es s 0 s' code k hstep
+  have hkj : k = j := by omega
+  subst hkj
+  rcases hres with ⟨hc, _⟩ | ⟨_, e, out, he, hs⟩
+  · exact absurd hc h0
+  · have hlt : k < es.length := by
+      rcases Nat.lt_or_ge k es.length with hlt | hge
+      · exact hlt
+      · rw [List.getElem?_eq_none hge] at he; cases he
+    have hwf1 := wf_run env _ s rs s1 hwf hrun
+    obtain ⟨e', hc, hs', _⟩ := rejected_port_write_changes_nothing env s1 s' h e.1 e.2.1 e.2.2 _ hwf1 hs h0 h1 h2
+    exact ⟨hlt, s1, rs, e', hrun, hall, hc, hs'⟩
+
+/-- a state for the examples: library initialised, system module open, handle variable 0 = system -/
+def exOpen : State := { State.init exEnv with libInit := true, sysOpen := true, slots := fun _ => .sys }
+
+/-- observation of an outcome for the examples: result, 8 bytes of the system map at 1028, whole
+system map digest-free comparison with a reference map, queue empty, stored error -/
+def exObserve (x : StepRes) (r : Result) (at1028 : Bytes) (le : Option Err) : Bool :=
+  match x with
+  | .done s' r' => decide (r' = r) && decide ((s'.sysMem.drop 1028).take 8 = at1028) && decide (s'.lastErr = le) &&
+      s'.sysQueue.isEmpty && decide (s'.sysMem.length = 1120)
+  | .abort => false
+
+/-- non-vacuity (the seeded-defect scenario): entry 0 writes the writable InterfaceSelector (0 is the only index that exists), entry 1
+starts in InterfaceSelector and ends in the read-only InterfaceSelectorMax — ACCESS_DENIED with
+`*piNumEntries = 1` and not one byte of entry 1 stored, entry 2 is never looked at; the single
+write of entry 1 is refused likewise. -/
+example :
+    exObserve (step exEnv exOpen (.gcWritePortStacked 0 [(1028, 4, [0, 0, 0, 0]), (1030, 4, [1, 1, 1, 1]), (1028, 1, [9])]))
+      ⟨-1005, .writeStacked 1⟩ [0, 0, 0, 0, 0, 0, 0, 0] (some .accessDenied) = true ∧
+    exObserve (step exEnv exOpen (.gcWritePort 0 1030 4 [1, 1, 1, 1]))
+      ⟨-1005, .write 4⟩ [0, 0, 0, 0, 0, 0, 0, 0] (some .accessDenied) = true := by decide +kernel
+
+example : WF exEnv exOpen :=
+  WF_congr (s := State.init exEnv) (s' := exOpen) rfl rfl (wf_init exEnv (by decide) (by decide))
+
+/-! ## 13. A NOT_INITIALIZED failure is retrievable after the next GCInitLib -/
+
+/-- **A call refused outside the init window is reported by `GCGetLastError` after `GCInitLib`.**
+For EVERY state in which the library is not initialised — before the first `GCInitLib` (no error
+stored) as well as after a `GCCloseLib` (whatever older error is stored) — every entry point `c`
+other than `GCInitLib` and the error query, and every destination that is NULL or large enough:
+`c` returns NOT_INITIALIZED (-1002) and writes nothing, `GCInitLib` succeeds, and `GCGetLastError`
+then returns success with `*piErrorCode = -1002` and the NUL-terminated NOT_INITIALIZED text (the
+older error is gone: the refused call is the most recent failing call).  `save_last_error` must
+therefore run for the NOT_INITIALIZED refusal too (seed C19-r4: it was skipped). -/
+theorem not_initialized_error_retrievable_after_init (env : Env) (s : State) (c : Call) (d : Dst)
+    (hi : s.libInit = false) (hc : c ≠ .initLib) (hs : c.noSave = false)
+    (ha : isAscii (Err.notInitialized.text env) = true)
+    (hd : ∀ old, d.buf = some old → (Err.notInitialized.text env).length + 1 ≤ d.size) :
+    run env s [c, .initLib, .getLastError d] =
+      ([⟨-1002, c.untouched⟩, ⟨0, .plain⟩,
+        ⟨0, .lastError (some (-1002))
+          ⟨d.buf.map fun old => Err.notInitialized.text env ++ [0] ++
+            old.drop ((Err.notInitialized.text env).length + 1), (Err.notInitialized.text env).length + 1⟩⟩],
+       some { s with libInit := true, lastErr := some .notInitialized }) := by
+  have h2 := not_initialized_outside env s c hi hc
+  rw [hs] at h2
+  simp only [Bool.false_eq_true, if_false] at h2
+  have h4 := init_ok env { s with lastErr := some .notInitialized } hi
+  have h5 := last_error_query env { s with libInit := true, lastErr := some .notInitialized } .notInitialized
+    d rfl rfl ha hd
+  simp [run, h2, h4, h5, Err.code]
+
+/-- non-vacuity, history 1: before the first `GCInitLib` (nothing stored yet), `TLOpen` refused,
+a 2-byte text buffer ("e" + NUL in `exEnv`) -/
+example : (State.init exEnv).libInit = false ∧ (State.init exEnv).lastErr = none ∧
+    (Call.tlOpen 0) ≠ .initLib ∧ (Call.tlOpen 0).noSave = false ∧
+    isAscii (Err.notInitialized.text exEnv) = true ∧
+    (∀ old, (Dst.mk (some [9, 9, 9]) 2).buf = some old → (Err.notInitialized.text exEnv).length + 1 ≤ (Dst.mk (some [9, 9, 9]) 2).size) :=
+  ⟨rfl, rfl, by simp, rfl, by decide, fun _ _ => by decide⟩
+
+/-- non-vacuity, history 2: after `GCCloseLib`, with an older error (INVALID_HANDLE) still stored -/
+example : ∃ s : State, s.libInit = false ∧ s.lastErr = some .invalidHandle ∧
+    step exEnv { s with libInit := true } .closeLib = .done s ⟨0, .plain⟩ :=
+  ⟨{ exOpen with libInit := false, lastErr := some .invalidHandle }, rfl, rfl, close_lib_ok exEnv _ rfl⟩
+
+/-! ## 14. The last error is per thread -/
+
+/-- The calling thread sees exactly the single-thread semantics: a call of thread `t` is `step` on
+the global state with `t`'s own stored error, and `t`'s view afterwards is the state `step` left. -/
+theorem own_thread_step {env : Env} {ms ms' : MState} {t : Nat} {c : Call} {r : Result}
+    (h : stepT env ms t c = .done ms' r) :
+    step env (ms.view t) c = .done (ms'.view t) r ∧
+    ∀ u, ms'.view u = { ms'.view t with lastErr := ms'.errs u } := by
+  unfold stepT at h
+  split at h
+  · rename_i s' r' hstep
+    cases h
+    refine ⟨?_, fun u => rfl⟩
+    rw [hstep]
+    simp [MState.view, MState.absorb]
+  · cases h
+
+/-- **Isolation, one call**: a call made by thread `t` — whatever it is, whether it fails or not —
+never changes the stored last error of any other thread. -/
+theorem thread_isolation_step {env : Env} {ms ms' : MState} {t : Nat} {c : Call} {r : Result}
+    (h : stepT env ms t c = .done ms' r) : ∀ u, u ≠ t → ms'.errs u = ms.errs u := by
+  unfold stepT at h
+  split at h
+  · cases h
+    intro u hu
+    simp [MState.absorb, hu]
+  · cases h
+
+/-- **Isolation, histories**: over ANY interleaved history of calls of any threads, the stored last
+error of thread `u` carries the code of the most recent failing call MADE BY `u` (error queries
+aside) — the calls of all other threads, failing or not, are invisible to it. -/
+theorem thread_last_error_tracks_own_history (env : Env) (u : Nat) (tcs : List (Nat × Call)) :
+    ∀ (ms : MState) (rs : List Result) (ms' : MState), runT env ms tcs = (rs, some ms') →
+      (ms'.errs u).map Err.code =
+        lastFailure ((ms.errs u).map Err.code)
+          (((tcs.zip rs).filter fun x => x.1.1 = u).map fun x => (x.1.2, x.2)) := by
+  induction tcs with
+  | nil => intro ms rs ms' h; simp [runT] at h; obtain ⟨rfl, rfl⟩ := h; rfl
+  | cons tc tcs ih =>
+    intro ms rs ms' h
+    obtain ⟨t, c⟩ := tc
+    unfold runT at h
+    split at h
+    · rename_i ms1 r hstep
+      simp only [Prod.mk.injEq] at h
+      have := ih ms1 _ ms' (Prod.ext rfl h.2)
+      rw [this, ← h.1]
+      by_cases hu : t = u
+      · subst hu
+        have hown := (own_thread_step hstep).1
+        have hl := last_error_tracks_step hown
+        simp only [List.zip_cons_cons, List.filter_cons, decide_true, if_true, List.map_cons, lastFailure,
+          List.foldl_cons]
+        congr 1
+        have e1 : (ms1.view t).lastErr = ms1.errs t := rfl
+        have e0 : (ms.view t).lastErr = ms.errs t := rfl
+        rw [e1, e0] at hl
+        by_cases h0 : r.code = 0
+        · simp [h0, hl.2 (Or.inl h0)]
+        · cases hs : c.noSave
+          · obtain ⟨e, he, hc⟩ := hl.1 h0 hs
+            simp [h0, he, hc]
+          · simp [hl.2 (Or.inr hs)]
+      · have hiso := thread_isolation_step hstep u (fun h => hu h.symm)
+        simp [List.zip_cons_cons, hu, hiso]
+    · simp at h
+
+/-- The answer of `GCGetLastError` depends on nothing but the library flag and the stored error of
+the thread that asks. -/
+theorem error_query_depends_on_own_error (env : Env) (s1 s2 : State) (d : Dst)
+    (hi : s1.libInit = s2.libInit) (he : s1.lastErr = s2.lastErr) :
+    (step env s1 (.getLastError d)).result = (step env s2 (.getLastError d)).result := by
+  simp only [step, Call.noAssert, Call.noSave, usesFreed, Call.handle?, body, hi, he]
+  cases s2.libInit
+  · simp [finish, StepRes.result]
+  · cases s2.lastErr with
+    | none =>
+      simp only [Bool.not_true, Bool.and_false, Bool.false_eq_true, if_false]
+      cases copyTo (Val.str env.noErrorText) d <;> rfl
+    | some e =>
+      simp only [Bool.not_true, Bool.and_false, Bool.false_eq_true, if_false]
+      cases copyTo (Val.str (e.text env)) d <;> rfl
+
+/-- A history made of calls of other threads only leaves the stored error of thread `u` alone. -/
+theorem other_threads_keep_error (env : Env) (u : Nat) (tcs : List (Nat × Call)) :
+    ∀ (ms ms' : MState) (rs : List Result), (∀ tc ∈ tcs, tc.1 ≠ u) → runT env ms tcs = (rs, some ms') →
+      ms'.errs u = ms.errs u := by
+  induction tcs with
+  | nil => intro ms ms' rs _ hrun; simp [runT] at hrun; rw [hrun.2]
+  | cons tc tcs ih =>
+    intro ms ms' rs hoth hrun
+    obtain ⟨t, c⟩ := tc
+    unfold runT at hrun
+    split at hrun
+    · rename_i ms1 r hstep
+      simp only [Prod.mk.injEq] at hrun
+      have h1 := thread_isolation_step hstep u (hoth (t, c) List.mem_cons_self).symm
+      rw [← h1]
+      exact ih ms1 ms' _ (fun tc htc => hoth tc (List.mem_cons_of_mem _ htc)) (Prod.ext rfl hrun.2)
+    · simp at hrun
+
+/-- **What thread `u` retrieves cannot be changed by other threads.**  After any history made of
+calls of OTHER threads only (failing or not), `GCGetLastError` on thread `u` gives exactly the
+answer — code, `*piErrorCode`, text, size — it would have given before, provided the library is
+(still or again) in the same initialisation state. -/
+theorem other_threads_cannot_change_what_is_retrieved (env : Env) (u : Nat) (tcs : List (Nat × Call))
+    (ms ms' : MState) (rs : List Result) (d : Dst)
+    (hoth : ∀ tc ∈ tcs, tc.1 ≠ u) (hrun : runT env ms tcs = (rs, some ms'))
+    (hi : ms'.glob.libInit = ms.glob.libInit) :
+    (stepT env ms' u (.getLastError d)).result = (stepT env ms u (.getLastError d)).result := by
+  have herr := other_threads_keep_error env u tcs ms ms' rs hoth hrun
+  have := error_query_depends_on_own_error env (ms'.view u) (ms.view u) d hi herr
+  unfold stepT
+  revert this
+  cases step env (ms'.view u) (.getLastError d) <;> cases step env (ms.view u) (.getLastError d) <;>
+    simp [StepRes.result, MStepRes.result]
+
+/-- One thread alone is the single-thread model: a history in which every call is made by the same
+thread `t` gives exactly the results of `run` on `t`'s view, and ends in the corresponding state
+(so every theorem about `run` is a theorem about each thread of `runT` taken alone). -/
+theorem single_thread_is_run (env : Env) (t : Nat) (cs : List Call) :
+    ∀ ms : MState, (runT env ms (cs.map fun c => (t, c))).1 = (run env (ms.view t) cs).1 ∧
+      (runT env ms (cs.map fun c => (t, c))).2.map (·.view t) = (run env (ms.view t) cs).2 := by
+  induction cs with
+  | nil => intro ms; simp [runT, run]
+  | cons c cs ih =>
+    intro ms
+    simp only [List.map_cons, runT, run, stepT]
+    cases hstep : step env (ms.view t) c with
+    | done s' r =>
+      have hv : (ms.absorb t s').view t = s' := by simp [MState.view, MState.absorb]
+      have := ih (ms.absorb t s')
+      rw [hv] at this
+      simp [this.1, this.2]
+    | abort => simp
+
+/-- non-vacuity: thread 1 fails (TLClose on a NULL handle), thread 0 then asks — and is told
+"no error" (`*piErrorCode = 0`), while thread 1 is told -1006 -/
+example :
+    (runT exEnv (MState.init exEnv)
+      [(0, .initLib), (1, .tlClose 9), (0, .getLastError ⟨none, 0⟩), (1, .getLastError ⟨none, 0⟩)]).1 =
+    [⟨0, .plain⟩, ⟨-1006, .plain⟩, ⟨0, .lastError (some 0) ⟨none, 9⟩⟩, ⟨0, .lastError (some (-1006)) ⟨none, 2⟩⟩] := by
+  decide +kernel
+
+/-! ## 15. The info command tables: which commands have a value, of which type; all others are refused -/
+
+/-- `INFO_DATATYPE` of every `TL_INFO_CMD` the code implements (STRING = 1, INT32 = 5, UINT32 = 6);
+`none`: the command id is not implemented -/
+def tlInfoType (cmd : Int) : Option Nat :=
+  if 0 ≤ cmd ∧ cmd ≤ 7 then some 1 else if cmd = 8 then some 5 else if cmd = 9 ∨ cmd = 10 then some 6 else none
+
+/-- … of every `INTERFACE_INFO_CMD` (TLGetInterfaceInfo and IFGetInfo) -/
+def ifInfoType (cmd : Int) : Option Nat := if 0 ≤ cmd ∧ cmd ≤ 2 then some 1 else none
+
+/-- … of every `PORT_INFO_CMD` (STRING = 1, BOOL8 = 11) -/
+def portInfoType (cmd : Int) : Option Nat :=
+  if (0 ≤ cmd ∧ cmd ≤ 4) ∨ cmd = 11 ∨ cmd = 12 then some 1 else if 5 ≤ cmd ∧ cmd ≤ 10 then some 11 else none
+
+/-- … of every `URL_INFO_CMD` (STRING = 1, INT32 = 5, UINT64 = 8); `some none`: a command the code
+knows but has no value for (SHA1 hash, file name: NOT_AVAILABLE) -/
+def urlInfoType (cmd : Int) : Option (Option Nat) :=
+  if cmd = 0 then some (some 1) else if (1 ≤ cmd ∧ cmd ≤ 5) ∨ cmd = 9 then some (some 5)
+  else if cmd = 7 ∨ cmd = 8 then some (some 8) else if cmd = 6 ∨ cmd = 10 then some none else none
+
+/-- **TLGetInfo, every command id** (live system handle): the implemented commands 0..10 have a
+value of the tabulated type (TL_INFO_NAME needs the module path to have a file name — otherwise the
+`unwrap` aborts); EVERY other id, negative ones included, is refused with INVALID_PARAMETER. -/
+theorem tl_info_command_table (env : Env) (s : State) (h : Nat) (cmd : Int) (hs : s.slots h = .sys) :
+    (∀ ty, tlInfoType cmd = some ty → (cmd = 5 → fileName env.path ≠ none) →
+        ∃ v, queryValue env s (.tlGetInfo h cmd) = .ok v ∧ v.dtype = ty) ∧
+    (tlInfoType cmd = none → queryValue env s (.tlGetInfo h cmd) = .err .invalidParameter) := by
+  by_cases hr : 0 ≤ cmd ∧ cmd ≤ 10
+  · have : cmd = 0 ∨ cmd = 1 ∨ cmd = 2 ∨ cmd = 3 ∨ cmd = 4 ∨ cmd = 5 ∨ cmd = 6 ∨ cmd = 7 ∨ cmd = 8 ∨
+        cmd = 9 ∨ cmd = 10 := by omega
+    rcases this with rfl | rfl | rfl | rfl | rfl | rfl | rfl | rfl | rfl | rfl | rfl
+    all_goals first
+      | (simp [tlInfoType, queryValue, hs, wantSystem, tlInfo, Val.dtype]; done)
+      | skip
+    refine ⟨fun ty hty hfn => ?_, fun hn => by simp [tlInfoType] at hn⟩
+    simp [tlInfoType] at hty
+    subst hty
+    cases hf : fileName env.path with
+    | none => exact absurd hf (hfn rfl)
+    | some n => simp [queryValue, hs, wantSystem, tlInfo, Val.dtype, hf]
+  · have htab : tlInfoType cmd = none := by
+      unfold tlInfoType; rw [if_neg (by omega), if_neg (by omega), if_neg (by omega)]
+    refine ⟨fun ty hty => (by rw [htab] at hty; cases hty), fun _ => ?_⟩
+    simp only [queryValue, hs, wantSystem, tlInfo]
+    simp [show cmd ≠ 0 by omega, show cmd ≠ 1 by omega, show cmd ≠ 2 by omega, show cmd ≠ 3 by omega,
+      show cmd ≠ 4 by omega, show cmd ≠ 5 by omega, show cmd ≠ 6 by omega, show cmd ≠ 7 by omega,
+      show cmd ≠ 8 by omega, show cmd ≠ 9 by omega, show cmd ≠ 10 by omega]
+
+/-- **TLGetInterfaceInfo / IFGetInfo, every command id**: commands 0..2 are strings; every other id
+is refused with INVALID_PARAMETER (TLGetInterfaceInfo: after the id was accepted). -/
+theorem if_info_command_table (env : Env) (s : State) (h : Nat) (cmd : Int) :
+    (s.slots h = .iface →
+      (∀ ty, ifInfoType cmd = some ty → ∃ v, queryValue env s (.ifGetInfo h cmd) = .ok v ∧ v.dtype = ty) ∧
+      (ifInfoType cmd = none → queryValue env s (.ifGetInfo h cmd) = .err .invalidParameter)) ∧
+    (s.slots h = .sys →
+      (∀ ty, ifInfoType cmd = some ty →
+        ∃ v, queryValue env s (.tlGetInterfaceInfo h env.ifc.id cmd) = .ok v ∧ v.dtype = ty) ∧
+      (ifInfoType cmd = none →
+        queryValue env s (.tlGetInterfaceInfo h env.ifc.id cmd) = .err .invalidParameter)) := by
+  by_cases hr : 0 ≤ cmd ∧ cmd ≤ 2
+  · have : cmd = 0 ∨ cmd = 1 ∨ cmd = 2 := by omega
+    rcases this with rfl | rfl | rfl <;>
+      (constructor <;> intro hs <;> simp [ifInfoType, queryValue, hs, wantInterface, wantSystem, ifInfo, Val.dtype])
+  · have htab : ifInfoType cmd = none := by unfold ifInfoType; rw [if_neg hr]
+    constructor <;> intro hs <;>
+      refine ⟨fun ty hty => (by rw [htab] at hty; cases hty), fun _ => ?_⟩ <;>
+      simp only [queryValue, hs, wantInterface, wantSystem, ifInfo] <;>
+      simp [show cmd ≠ 0 by omega, show cmd ≠ 1 by omega, show cmd ≠ 2 by omega]
+
+/-- **GCGetPortInfo, every command id** (live port handle whose module answers): commands 0..4, 11,
+12 are strings, 5..10 are BOOL8; every other id is refused with INVALID_PARAMETER. -/
+theorem port_info_command_table (env : Env) (s : State) (h : Nat) (m : Module) (cmd : Int)
+    (hp : portOf (s.slots h) = .ok m) (hm : portMeta s m = .ok ()) :
+    (∀ ty, portInfoType cmd = some ty → ∃ v, queryValue env s (.gcGetPortInfo h cmd) = .ok v ∧ v.dtype = ty) ∧
+    (portInfoType cmd = none → queryValue env s (.gcGetPortInfo h cmd) = .err .invalidParameter) := by
+  by_cases hr : 0 ≤ cmd ∧ cmd ≤ 12
+  · have : cmd = 0 ∨ cmd = 1 ∨ cmd = 2 ∨ cmd = 3 ∨ cmd = 4 ∨ cmd = 5 ∨ cmd = 6 ∨ cmd = 7 ∨ cmd = 8 ∨
+        cmd = 9 ∨ cmd = 10 ∨ cmd = 11 ∨ cmd = 12 := by omega
+    rcases this with rfl | rfl | rfl | rfl | rfl | rfl | rfl | rfl | rfl | rfl | rfl | rfl | rfl <;>
+      simp [portInfoType, queryValue, hp, hm, portInfo, Val.dtype]
+  · have htab : portInfoType cmd = none := by
+      unfold portInfoType; rw [if_neg (by omega), if_neg (by omega)]
+    refine ⟨fun ty hty => (by rw [htab] at hty; cases hty), fun _ => ?_⟩
+    simp only [queryValue, hp, hm, portInfo]
+    simp [show cmd ≠ 0 by omega, show cmd ≠ 1 by omega, show cmd ≠ 2 by omega, show cmd ≠ 3 by omega,
+      show cmd ≠ 4 by omega, show cmd ≠ 5 by omega, show cmd ≠ 6 by omega, show cmd ≠ 7 by omega,
+      show cmd ≠ 8 by omega, show cmd ≠ 9 by omega, show cmd ≠ 10 by omega, show cmd ≠ 11 by omega,
+      show cmd ≠ 12 by omega]
+
+/-- **GCGetPortURLInfo, every command id** (URL index 0): URL is a string, schema / file versions
+and the scheme are INT32, register address and length UINT64; SHA1 hash and file name are known
+but NOT_AVAILABLE; every other id is refused with INVALID_PARAMETER. -/
+theorem url_info_command_table (env : Env) (s : State) (h : Nat) (m : Module) (cmd : Int)
+    (hp : portOf (s.slots h) = .ok m) (hm : portMeta s m = .ok ()) :
+    (∀ ty, urlInfoType cmd = some (some ty) →
+      ∃ v, queryValue env s (.gcGetPortURLInfo h 0 cmd) = .ok v ∧ v.dtype = ty) ∧
+    (urlInfoType cmd = some none → queryValue env s (.gcGetPortURLInfo h 0 cmd) = .err .notAvailable) ∧
+    (urlInfoType cmd = none → queryValue env s (.gcGetPortURLInfo h 0 cmd) = .err .invalidParameter) := by
+  by_cases hr : 0 ≤ cmd ∧ cmd ≤ 10
+  · have : cmd = 0 ∨ cmd = 1 ∨ cmd = 2 ∨ cmd = 3 ∨ cmd = 4 ∨ cmd = 5 ∨ cmd = 6 ∨ cmd = 7 ∨ cmd = 8 ∨
+        cmd = 9 ∨ cmd = 10 := by omega
+    rcases this with rfl | rfl | rfl | rfl | rfl | rfl | rfl | rfl | rfl | rfl | rfl <;>
+      simp [urlInfoType, queryValue, hp, hm, urlInfo, Val.dtype]
+  · have htab : urlInfoType cmd = none := by
+      unfold urlInfoType; rw [if_neg (by omega), if_neg (by omega), if_neg (by omega), if_neg (by omega)]
+    refine ⟨fun ty hty => (by rw [htab] at hty; cases hty), fun hty => (by rw [htab] at hty; cases hty), fun _ => ?_⟩
+    simp only [queryValue, hp, hm, urlInfo]
+    simp [show cmd ≠ 0 by omega, show cmd ≠ 1 by omega, show cmd ≠ 2 by omega, show cmd ≠ 3 by omega,
+      show cmd ≠ 4 by omega, show cmd ≠ 5 by omega, show cmd ≠ 6 by omega, show cmd ≠ 7 by omega,
+      show cmd ≠ 8 by omega, show cmd ≠ 9 by omega, show cmd ≠ 10 by omega]
+
+/-- **A refused info query writes nothing, whatever the destination**: if the query has no value
+(unknown command id, wrong handle kind, bad index or id, NOT_AVAILABLE), then for EVERY destination
+— NULL, too small, exact, larger — the call returns that error, stores it as the last error, and
+leaves buffer, `*piSize` and `*piType` exactly as they were. -/
+theorem refused_info_query_writes_nothing (env : Env) (s : State) (q : Query) (e : Err) (d : Dst)
+    (hi : s.libInit = true) (hh : s.slots q.handle ≠ .freed) (hq : queryValue env s q = .err e) :
+    step env s (.info q d) = .done { s with lastErr := some e } ⟨e.code, .info none d⟩ := by
+  rcases buffer_protocol env s q hi hh with ⟨e', h1, h2⟩ | ⟨v, h1, _⟩ | ⟨v, img, h1, _⟩ | ⟨h1, _⟩
+  · rw [hq] at h1; cases h1; exact h2 d
+  · rw [hq] at h1; cases h1
+  · rw [hq] at h1; cases h1
+  · rw [hq] at h1; cases h1
+
+/-- **An info query with a value follows the protocol for every destination**: value `v` with image
+`img` (numeric: 4 / 8 / 1 bytes, string: text + NUL) ⇒ for every `d` exactly `protocol img`. -/
+theorem info_value_follows_protocol (env : Env) (s : State) (q : Query) (v : Val) (img : Bytes) (d : Dst)
+    (hi : s.libInit = true) (hh : s.slots q.handle ≠ .freed)
+    (hq : queryValue env s q = .ok v) (himg : v.image = .ok img) :
+    step env s (.info q d) =
+      .done (if (protocol img v.dtype d).1 = 0 then s else { s with lastErr := some .bufferTooSmall })
+        ⟨(protocol img v.dtype d).1, .info (if q.typed then (protocol img v.dtype d).2.1 else none)
+          (protocol img v.dtype d).2.2⟩ := by
+  rcases buffer_protocol env s q hi hh with ⟨e', h1, _⟩ | ⟨v', h1, e, h2, _⟩ | ⟨v', img', h1, h2, h3⟩ | ⟨h1, _⟩
+  · rw [hq] at h1; cases h1
+  · rw [hq] at h1; cases h1; rw [himg] at h2; cases h2
+  · rw [hq] at h1; cases h1; rw [himg] at h2; cases h2; exact h3 d
+  · rw [hq] at h1; cases h1
+
+/-- non-vacuity: the tables are total and distinguish known from unknown ids, negative included -/
+example : tlInfoType 10 = some 6 ∧ tlInfoType 11 = none ∧ tlInfoType (-1) = none ∧ ifInfoType 3 = none ∧
+    portInfoType 12 = some 1 ∧ portInfoType 13 = none ∧ urlInfoType 6 = some none ∧ urlInfoType 11 = none ∧
+    urlInfoType (-2147483648) = none := by decide
 
 end CamVerif.C19
